@@ -26,7 +26,7 @@
     with 3a over all tables at once, and the scripts whose dropped generated-name index
     is matched with an unnamed one. *)
 From Coq Require Import List NArith Bool Arith Permutation.
-From Atlas Require Import Base.Bytes Diff.Schema Diff.DiffModel Diff.DiffSqlite Diff.DiffDialects Diff.DiffProofs Diff.DiffSqliteProofs Diff.DiffDialectsProofs.
+From Atlas Require Import Base.Bytes Diff.Schema Diff.DiffModel Diff.DiffSqlite Diff.DiffDialects Diff.DiffProofs Diff.DiffSqliteProofs Diff.DiffDialectsProofs Diff.DiffSqliteCopy.
 Import ListNotations.
 
 (** 1a. Generic: for every driver whose callbacks report nothing on identical
@@ -107,6 +107,19 @@ Proof.
   - exact w_schema3_perm.
   - rewrite w_schema3_diff. discriminate.
 Qed.
+
+(** 1e'. What holds for the copy (since the fixes): the diff of a schema with a copy is empty
+    for every schema whose tables are well formed, typed, with unique check names, and whose
+    autoindexes are what an inspection yields ([sqlite_copy_ok]: an index named
+    sqlite_autoindex* with origin other than "p" has column parts only and a name generated
+    for its table, and after Normalize's renaming no two indexes of the table share a name
+    and no renamed-away name survives) -- no condition on foreign keys any more (in the same
+    order every foreign key is paired with itself), and the inspected autoindex of a UNIQUE
+    column is covered (it goes through FindGeneratedIndex).  [sqlite_dwf] is a special case
+    ([sqlite_dwf_copy_ok]); C02_copy_empty_refuted violates exactly the name condition. *)
+Theorem C02_sqlite_copy_empty :
+  forall (skip : tag -> bool) s, sqlite_copy_wf s -> SchemaDiff sqlite_driver skip s s = Some [].
+Proof. exact sqlite_schema_diff_copy. Qed.
 
 (** 1f. What does hold for SQLite (self, copy and every permutation). *)
 Theorem C02_copy_empty_except :
@@ -427,6 +440,14 @@ Proof.
     + intros f1 f2 [<-|[]] [<-|[]] _. reflexivity.
     + intros i [<-|[]]. left. reflexivity.
 Qed.
+(* the former witness 1 (inspected autoindex of a UNIQUE column) meets the hypothesis of C02_sqlite_copy_empty *)
+Example C02_ex_copy_autoindex : sqlite_copy_wf w_schema1.
+Proof.
+  split; [repeat constructor; simpl; tauto|]. intros t [<-|[]]. split; [exact w_table1_wf|]. split; [|split].
+  - intros c [<-|[]]. discriminate.
+  - intros c c' [].
+  - exact w_table1_copy_ok.
+Qed.
 Example C02_ex_self : SchemaDiff sqlite_driver no_skip x_s x_s = Some [].
 Proof. vm_compute. reflexivity. Qed.
 Example C02_ex_perm : SchemaDiff sqlite_driver no_skip x_s (mkSchema [109]%N [x_t_perm]) = Some [].
@@ -508,3 +529,4 @@ Print Assumptions C02_postgres_column_bits_except.
 Print Assumptions C02_no_similar_index.
 Print Assumptions C02_postgres_udt_type_except.
 Print Assumptions C02_postgres_ns_laws.
+Print Assumptions C02_sqlite_copy_empty.
